@@ -7,18 +7,27 @@
                   those dimensions in order, every listed attribute (variable and file) is retrievable.
    step f o     : what the library does for one public operation (Ok file | Raise).
    run_region   : 0 iff every operation of the run is inside the domain on which well-formedness is
-                  proved; 1 = renameDimensions onto a name that is not fresh, 2 = eval whose value does not
-                  have the shape of the variable whose metadata it inherits, 3 = arithmetic whose other
-                  operand broadcasts a variable to a larger shape. *)
+                  proved; 1 = eval whose value does not have the shape of the variable whose metadata it
+                  inherits.  The model describes the code AS REPAIRED by fixes/C01-renameDimensions.patch and
+                  fixes/C01-binop-broadcast.patch: renameDimensions and the binary operators need no side
+                  condition any more (they raise or return a well-formed file). *)
 From PNC Require Import Base.Util Model.FileStruct Proofs.FileStructProofs.
 
 (* One step of ANY of the 14 operations, from ANY well-formed file (any number/rank of variables, any
-   dimension table), inside the safe domain: if it completes, the result is well-formed; if it does not
-   complete it raised (Raise) — there is no third outcome in the model. *)
+   dimension table): if it completes, the result is well-formed; if it does not complete it raised (Raise) —
+   there is no third outcome in the model.  The only side condition left (safe_op) concerns eval. *)
 Theorem C01_step_wf_partial : forall f o f',
   wfb f = true -> safe_op f o = true -> operands_ok o = true -> step f o = Ok f' -> wfb f' = true.
 Proof. exact step_wf. Qed.
 Print Assumptions C01_step_wf_partial.
+
+(* FULL strength for the 13 operations other than eval (renameDimensions with ANY pairs — swap, self-rename,
+   chains, collisions — and arithmetic with ANY operand included): raises or well-formed, no side condition *)
+Theorem C01_step_wf_all_but_eval : forall f o f',
+  wfb f = true -> (match o with OEval _ _ _ => false | _ => true end) = true -> operands_ok o = true ->
+  step f o = Ok f' -> wfb f' = true.
+Proof. exact step_wf_noeval. Qed.
+Print Assumptions C01_step_wf_all_but_eval.
 
 (* Operation sequences of any length (induction over the sequence): the final file is well-formed ... *)
 Theorem C01_run_wf_partial : forall ops f f',
@@ -32,47 +41,35 @@ Theorem C01_trace_wf_partial : forall ops f,
 Proof. exact trace_wf. Qed.
 Print Assumptions C01_trace_wf_partial.
 
-(* Surviving dimensions keep their unlimited flag. Proved for copy, subsetVariables, renameVariable(s),
-   reorderDimensions, mask, eval, arithmetic (dimension table untouched), insertDimension, removeSingleton
-   and renameDimensions with fresh targets.  PARTIAL: sliceDimensions, applyAlongDimensions, stack and
-   interpDimension are covered by the correspondence check only.
-   (* UNPROVED: forall f o f', safe_op f o = true -> step f o = Ok f' -> unlim_keptb (fdims f) (fdims f') = true
+(* Surviving dimensions keep their unlimited flag (across renameDimensions: the dimension formerly called d
+   is the one now called rn d).  Proved for copy, subsetVariables, renameVariable(s), reorderDimensions, mask,
+   eval, arithmetic (dimension table untouched), insertDimension, removeSingleton and renameDimensions with
+   ANY pairs.  PARTIAL: sliceDimensions, applyAlongDimensions, stack and interpDimension are covered by the
+   correspondence check only.
+   (* UNPROVED: forall f o f', step f o = Ok f' -> unlim_kept_op o (fdims f) (fdims f') = true
       -- false as stated for sliceDimensions with several index arrays on a file that already has an
       unlimited dimension called POINTS; true otherwise, not proved for the four operations above. *) *)
 Theorem C01_step_unlimited_partial : forall f o f',
   step f o = Ok f' ->
   match o with
-  | ORenameDim prs => safe_rename (fdims f) prs
-  | OInsert _ _ _ _ _ _ | ORemove _ => true
+  | ORenameDim _ | OInsert _ _ _ _ _ _ | ORemove _ => true
   | _ => keeps_table o
   end = true ->
-  unlim_keptb (fdims f) (fdims f') = true.
+  unlim_kept_op o (fdims f) (fdims f') = true.
 Proof. exact step_unlimited. Qed.
 Print Assumptions C01_step_unlimited_partial.
 
-(* renameDimensions with fresh targets moves every dimension entry to its new name *)
-Theorem C01_rename_fresh_lookup : forall T prs T1,
-  safe_rename T prs = true -> rd_add T prs = Ok T1 ->
-  forall d x, lookup d T = Some x -> lookup (rn prs d) (rd_del T1 prs) = Some x.
+(* repaired renameDimensions: whenever it does not raise, every dimension entry is found under its new name *)
+Theorem C01_rename_lookup : forall T prs T2,
+  rename_collides T prs = false -> rd_ins T (rd_del T prs) prs = Ok T2 ->
+  forall d x, lookup d T = Some x -> lookup (rn prs d) T2 = Some x.
 Proof. exact rename_dim_lookup. Qed.
-Print Assumptions C01_rename_fresh_lookup.
+Print Assumptions C01_rename_lookup.
 
 (* ---- the FULL statement (no side condition) is false of the faithful model ------------------------- *)
 Definition f_tyx : file :=
   File [(4, (2, true)); (5, (3, false)); (6, (4, false))]
        [(11, Var [4; 5; 6] [2; 3; 4] [(0, true)]); (6, Var [6] [4] [(0, true)])] [] [].
-
-(* renameDimensions(x='y', y='x'): both dimensions vanish, the variables still name them *)
-Theorem C01_rename_swap_refuted : exists f prs f',
-  wfb f = true /\ step f (ORenameDim prs) = Ok f' /\ wfb f' = false.
-Proof. exists f_tyx, [(6, 5); (5, 6)]. eexists. vm_compute. repeat split; reflexivity. Qed.
-Print Assumptions C01_rename_swap_refuted.
-
-(* renameDimension('x', 'x') deletes the dimension; renameDimension('x', 'y') merges two dimensions *)
-Theorem C01_rename_self_refuted : exists f f',
-  wfb f = true /\ step f (ORenameDim [(6, 6)]) = Ok f' /\ wfb f' = false.
-Proof. exists f_tyx. eexists. vm_compute. repeat split; reflexivity. Qed.
-Print Assumptions C01_rename_self_refuted.
 
 (* eval('N = A[0]'): the value keeps A's three dimension names but has rank 2 *)
 Theorem C01_eval_index_refuted : exists f f',
@@ -86,19 +83,27 @@ Theorem C01_eval_broadcast_refuted : exists f f',
 Proof. exists f_tyx. eexists. vm_compute. repeat split; reflexivity. Qed.
 Print Assumptions C01_eval_broadcast_refuted.
 
-(* f1 + f2 where f2 is longer along a length-1 dimension of f1: values= bypasses the dimension table *)
-Definition f_t1 : file := File [(4, (1, true)); (6, (3, false))] [(11, Var [4; 6] [1; 3] [(0, true)])] [] [].
-Definition f_t2 : file := File [(4, (2, true)); (6, (3, false))] [(11, Var [4; 6] [2; 3] [(0, true)])] [] [].
-Theorem C01_binop_broadcast_refuted : exists f g f',
-  wfb f = true /\ wfb g = true /\ step f (OBinop g) = Ok f' /\ wfb f' = false.
-Proof. exists f_t1, f_t2. eexists. vm_compute. repeat split; reflexivity. Qed.
-Print Assumptions C01_binop_broadcast_refuted.
-
 (* hence the invariant over arbitrary sequences is refuted as well *)
 Theorem C01_run_wf_refuted : exists f ops f',
   wfb f = true /\ forallb operands_ok ops = true /\ run f ops = Ok f' /\ wfb f' = false.
-Proof. exists f_tyx, [OCopy; ORenameDim [(6, 5); (5, 6)]]. eexists. vm_compute. repeat split; reflexivity. Qed.
+Proof. exists f_tyx, [OCopy; OEval 16 (EIndex 11) true]. eexists. vm_compute. repeat split; reflexivity. Qed.
 Print Assumptions C01_run_wf_refuted.
+
+(* ---- the repaired operations on the former witnesses (evaluation of the model) --------------------------- *)
+Definition f_t1 : file := File [(4, (1, true)); (6, (3, false))] [(11, Var [4; 6] [1; 3] [(0, true)])] [] [].
+Definition f_t2 : file := File [(4, (2, true)); (6, (3, false))] [(11, Var [4; 6] [2; 3] [(0, true)])] [] [].
+Example C01_repaired_witnesses :
+  (exists f', step f_tyx (ORenameDim [(6, 5); (5, 6)]) = Ok f' /\ wfb f' = true
+              /\ fdims f' = [(4, (2, true)); (5, (4, false)); (6, (3, false))]
+              /\ lookup 11 (fvars f') = Some (Var [4; 6; 5] [2; 3; 4] [(0, true)]))     (* swap: lengths swapped with the names *)
+  /\ (exists f', step f_tyx (ORenameDim [(6, 6)]) = Ok f' /\ wfb f' = true)            (* self-rename keeps x *)
+  /\ step f_tyx (ORenameDim [(6, 5)]) = Raise                                          (* onto an existing name: ValueError *)
+  /\ step f_tyx (ORenameDim [(6, 8); (5, 8)]) = Raise                                  (* two dimensions onto one name *)
+  /\ step f_t1 (OBinop f_t2) = Raise                                                   (* would broadcast (1,3) to (2,3) *)
+  /\ (exists f', step f_t2 (OBinop f_t1) = Ok f' /\ wfb f' = true).                    (* (2,3) op (1,3) keeps (2,3) *)
+Proof.
+  vm_compute. repeat split; try reflexivity; eexists; repeat split; reflexivity.
+Qed.
 
 (* ---- non-vacuity ------------------------------------------------------------------------------------ *)
 (* a six-step run inside the proved domain that really changes the structure: slice with two index arrays
